@@ -29,8 +29,9 @@ fn to_f64(value: &ArrayNode) -> Result<f64, Error> {
         ArrayNode::Number(f) => Ok(*f),
         ArrayNode::Boolean(b) => Ok(if *b { 1.0 } else { 0.0 }),
         ArrayNode::String(s) => match s.parse::<f64>() {
-            Ok(f) => Ok(f),
-            Err(_) => Err(Error::VALUE),
+            // "inf", "nan" and overflowing numerals are not numbers
+            Ok(f) if f.is_finite() => Ok(f),
+            _ => Err(Error::VALUE),
         },
         ArrayNode::Error(err) => Err(err.clone()),
         ArrayNode::Empty => Ok(0.0),
